@@ -201,7 +201,10 @@ def run(ctx):
     thorough = ctx.tier == "thorough"
     eng = cm.engine()
     ctx.verify(eng, cm.VERIFY, min_obligations={"hdl21.module:_add": 15, "hdl21.bundle:_add": 5})
-    ctx.assumptions.append("Inv_ns assumed on entry (holds for a fresh Module/Bundle: all containers empty)")
+    ctx.verify(cm.init_engine(), cm.VERIFY_INIT)
+    ctx.assumptions.append("Inv_ns holds for Modules by induction over designer edits: established by Module.__init__ "
+                           "(proved), preserved by add / __setattr__ / _add (proved); for Bundles the constructor is "
+                           "not separately verified (all containers start empty)")
     ctx.assumptions.append("Signal.vis is not mutated after the signal has been added (the port view is computed at add time)")
     rnd = random.Random(ctx.seed)
     n = 20000 if thorough else 2500
